@@ -70,3 +70,14 @@ def zabs(t):
 
 def no_replay(cex):
     return False, "no replayer for this obligation"
+
+
+def inject(obj, name, value):
+    """Set a piece of internal state for an inductive step. The harness relies on `name` BEING the state: if the object no longer
+    has that attribute (renamed / re-represented), setting it would silently create a dead attribute and the step would be judged
+    from a state the harness did not intend - a false alarm. That situation is reported as inconclusive instead."""
+    from symx.core import Inconclusive
+
+    if not hasattr(obj, name):
+        raise Inconclusive(f"{type(obj).__name__} has no attribute {name!r} any more: the state representation this inductive step injects into has changed")
+    setattr(obj, name, value)
